@@ -78,6 +78,33 @@ pub enum Amt {
     SupplyGap(i8),
     /// cap - supply + d (capped flavour; otherwise like SupplyGap)
     CapGap(i8),
+    /// min(holder balance, allowance(holder, spender)) + d — the largest spend that can succeed, +-d
+    MinBalAllow(i8),
+}
+
+/// amounts biased towards spends that can succeed (C02)
+pub fn amt_strategy_spend() -> BoxedStrategy<Amt> {
+    prop_oneof![
+        3 => (0i128..=60).prop_map(Amt::Abs),
+        2 => crate::gen::amount_any().prop_map(Amt::Abs),
+        2 => (0u8..=4).prop_map(Amt::OfBal),
+        2 => (-2i8..=2).prop_map(Amt::BalPlus),
+        3 => (-2i8..=2).prop_map(Amt::AllowPlus),
+        5 => (-2i8..=1).prop_map(Amt::MinBalAllow),
+    ]
+    .boxed()
+}
+
+/// approve amounts that are mostly positive and of the order of the balances (C02)
+pub fn amt_strategy_approve() -> BoxedStrategy<Amt> {
+    prop_oneof![
+        5 => (1i128..=1500).prop_map(Amt::Abs),
+        2 => crate::gen::amount_any().prop_map(Amt::Abs),
+        2 => (1u8..=4).prop_map(Amt::OfBal),
+        2 => (-1i8..=2).prop_map(Amt::BalPlus),
+        1 => Just(Amt::Abs(0)),
+    ]
+    .boxed()
 }
 
 pub fn amt_strategy() -> BoxedStrategy<Amt> {
@@ -138,10 +165,11 @@ pub fn auth_strategy(exact_weight: u32) -> BoxedStrategy<AuthMode> {
 pub enum Op {
     Mint { to: u16, amt: Amt, auth: AuthMode },
     Transfer { from: u16, to: u16, amt: Amt, muxed: Option<u64>, auth: AuthMode },
-    TransferFrom { spender: u16, from: u16, to: u16, amt: Amt, auth: AuthMode },
+    /// `live_pair`: when Some and some (owner, spender) pair currently has a non-zero allowance, use that pair
+    TransferFrom { spender: u16, from: u16, to: u16, amt: Amt, auth: AuthMode, live_pair: Option<u16> },
     Approve { owner: u16, spender: u16, amt: Amt, live: Live, auth: AuthMode },
     Burn { from: u16, amt: Amt, auth: AuthMode },
-    BurnFrom { spender: u16, from: u16, amt: Amt, auth: AuthMode },
+    BurnFrom { spender: u16, from: u16, amt: Amt, auth: AuthMode, live_pair: Option<u16> },
     /// advance the ledger: Rel(k) or to the expiry of some allowance (+d)
     Advance { k: u32 },
     AdvanceToExpiry { which: u16, d: i8 },
@@ -161,24 +189,27 @@ pub struct OpWeights {
     pub list: u32,
     pub pause: u32,
     pub exact_auth: u32,
+    /// use the spend-friendly amount profile
+    pub spend_profile: bool,
 }
 
 pub fn op_strategy(w: &OpWeights) -> BoxedStrategy<Op> {
     let a = auth_strategy(w.exact_auth);
+    let amt_strategy = || if w.spend_profile { amt_strategy_spend() } else { amt_strategy() };
     prop_oneof![
         w.mint => (any::<u16>(), amt_strategy(), a.clone()).prop_map(|(to, amt, auth)| Op::Mint { to, amt, auth }),
         w.transfer => (any::<u16>(), any::<u16>(), amt_strategy(), proptest::option::weighted(0.15, any::<u64>()), a.clone())
             .prop_map(|(from, to, amt, muxed, auth)| Op::Transfer { from, to, amt, muxed, auth }),
-        w.transfer_from => (any::<u16>(), any::<u16>(), any::<u16>(), amt_strategy(), a.clone())
-            .prop_map(|(spender, from, to, amt, auth)| Op::TransferFrom { spender, from, to, amt, auth }),
-        w.approve => (any::<u16>(), any::<u16>(), amt_strategy(), live_strategy(), a.clone())
+        w.transfer_from => (any::<u16>(), any::<u16>(), any::<u16>(), amt_strategy(), a.clone(), proptest::option::weighted(0.6, any::<u16>()))
+            .prop_map(|(spender, from, to, amt, auth, live_pair)| Op::TransferFrom { spender, from, to, amt, auth, live_pair }),
+        w.approve => (any::<u16>(), any::<u16>(), if w.spend_profile { amt_strategy_approve() } else { amt_strategy() }, live_strategy(), a.clone())
             .prop_map(|(owner, spender, amt, live, auth)| Op::Approve { owner, spender, amt, live, auth }),
         w.burn => (any::<u16>(), amt_strategy(), a.clone()).prop_map(|(from, amt, auth)| Op::Burn { from, amt, auth }),
-        w.burn_from => (any::<u16>(), any::<u16>(), amt_strategy(), a.clone())
-            .prop_map(|(spender, from, amt, auth)| Op::BurnFrom { spender, from, amt, auth }),
+        w.burn_from => (any::<u16>(), any::<u16>(), amt_strategy(), a.clone(), proptest::option::weighted(0.6, any::<u16>()))
+            .prop_map(|(spender, from, amt, auth, live_pair)| Op::BurnFrom { spender, from, amt, auth, live_pair }),
         w.advance => prop_oneof![
             3 => prop_oneof![Just(0u32), Just(1), Just(2), 3u32..80, 500u32..700].prop_map(|k| Op::Advance { k }),
-            2 => (any::<u16>(), -1i8..=1).prop_map(|(which, d)| Op::AdvanceToExpiry { which, d }),
+            3 => (any::<u16>(), -1i8..=1).prop_map(|(which, d)| Op::AdvanceToExpiry { which, d }),
         ],
         w.list => (any::<u16>(), any::<bool>(), a.clone()).prop_map(|(who, on, auth)| Op::ListSet { who, on, auth }),
         w.pause => (any::<bool>(), proptest::bool::weighted(0.85), a.clone()).prop_map(|(on, by_owner, auth)| Op::Pause { on, by_owner, auth }),
@@ -314,6 +345,10 @@ impl Tok {
                 None => bal.saturating_add(*dd as i128),
             },
             Amt::SupplyGap(dd) => (i128::MAX - d.supply).saturating_add(*dd as i128),
+            Amt::MinBalAllow(dd) => match spender {
+                Some(sp) => d.allow[holder][sp].min(bal).saturating_add(*dd as i128),
+                None => bal.saturating_add(*dd as i128),
+            },
             Amt::CapGap(dd) => {
                 if self.flavor == Flavor::ExCapped {
                     (EX_CAP - d.supply).saturating_add(*dd as i128)
@@ -447,4 +482,315 @@ pub fn muxed_to(_e: &Env, base: &Address, id: u64) -> MuxedAddress {
 
 pub fn sym(e: &Env, x: &str) -> Symbol {
     Symbol::new(e, x)
+}
+
+
+// ---------------------------------------------------------------- op resolution
+
+#[derive(Clone, Copy, Debug, PartialEq, Eq)]
+pub enum Kind {
+    Mint,
+    Burn,
+    BurnFrom,
+    Transfer,
+    TransferFrom,
+    Approve,
+    List,
+    Pause,
+}
+
+/// An operation resolved against the observed state `d`.
+#[derive(Clone, Debug)]
+pub struct Resolved {
+    pub call: Call,
+    pub mode: AuthMode,
+    pub kind: Kind,
+    pub amount: i128,
+    /// holder index (into `holders()`) losing tokens, if any
+    pub from: Option<usize>,
+    /// holder index receiving tokens, if any
+    pub to: Option<usize>,
+    /// spender / operator index for *_from and approve
+    pub spender: Option<usize>,
+    /// resolved live_until (approve)
+    pub live: u32,
+    /// list op: (account index, put on the list?)
+    pub list: Option<(usize, bool)>,
+    /// pause op: (pause?, caller is the owner?)
+    pub pause: Option<(bool, bool)>,
+    pub muxed: bool,
+}
+
+/// history-derived selector pools
+#[derive(Default)]
+pub struct Hist {
+    pub expiries: Vec<u32>,
+    pub pairs: Vec<(usize, usize)>,
+}
+
+pub enum Step {
+    /// ledger moved (already applied)
+    Advanced,
+    /// operation does not exist for this flavour
+    Skipped,
+    Call(Resolved),
+}
+
+impl Tok {
+    pub fn sink_idx(&self) -> usize {
+        self.accts.len()
+    }
+    /// Resolve a generated op.  `hist` collects live_until values and pairs of approvals (for state-relative selectors).
+    pub fn resolve(&self, op: &Op, d: &Dump, hist: &mut Hist) -> Step {
+        let e = &self.e;
+        let f = self.flavor;
+        let blank = |call: Call, mode: &AuthMode, kind: Kind, amount: i128| Resolved {
+            call,
+            mode: mode.clone(),
+            kind,
+            amount,
+            from: None,
+            to: None,
+            spender: None,
+            live: 0,
+            list: None,
+            pause: None,
+            muxed: false,
+        };
+        match op {
+            Op::Advance { k } => {
+                envx::advance(e, *k);
+                Step::Advanced
+            }
+            Op::AdvanceToExpiry { which, d: dd } => {
+                if !hist.expiries.is_empty() {
+                    let target = hist.expiries[pick(*which, hist.expiries.len())] as i64 + *dd as i64;
+                    let now = envx::seq(e) as i64;
+                    if target > now && target - now < 100_000 {
+                        envx::set_seq(e, target as u32);
+                    }
+                }
+                Step::Advanced
+            }
+            Op::Mint { to, amt, auth } => {
+                if !f.has_mint() {
+                    return Step::Skipped;
+                }
+                let ti = self.acct_idx(*to);
+                let a = self.resolve_amt(amt, d, ti, None);
+                let req = if f.mint_needs_auth() { vec![self.admin.clone()] } else { vec![] };
+                let mut r = blank(
+                    Call { func: "mint", args: vec![self.accts[ti].clone().into_val(e), a.into_val(e)], required: req, amount_arg: Some(1) },
+                    auth,
+                    Kind::Mint,
+                    a,
+                );
+                r.to = Some(ti);
+                Step::Call(r)
+            }
+            Op::Transfer { from, to, amt, muxed, auth } => {
+                let fi = self.acct_idx(*from);
+                let a = self.resolve_amt(amt, d, fi, None);
+                let (to_val, ti): (Val, usize) = match muxed {
+                    Some(id) => (muxed_to(e, &self.sink, *id).into_val(e), self.sink_idx()),
+                    None => {
+                        let ti = self.acct_idx(*to);
+                        (self.accts[ti].clone().into_val(e), ti)
+                    }
+                };
+                let mut r = blank(
+                    Call {
+                        func: "transfer",
+                        args: vec![self.accts[fi].clone().into_val(e), to_val, a.into_val(e)],
+                        required: vec![self.accts[fi].clone()],
+                        amount_arg: Some(2),
+                    },
+                    auth,
+                    Kind::Transfer,
+                    a,
+                );
+                r.from = Some(fi);
+                r.to = Some(ti);
+                r.muxed = muxed.is_some();
+                Step::Call(r)
+            }
+            Op::TransferFrom { spender, from, to, amt, auth, live_pair } => {
+                let (fi, si) = self.spend_pair(d, hist, *from, *spender, *live_pair);
+                let ti = self.acct_idx(*to);
+                let a = self.resolve_amt(amt, d, fi, Some(si));
+                let mut r = blank(
+                    Call {
+                        func: "transfer_from",
+                        args: vec![
+                            self.accts[si].clone().into_val(e),
+                            self.accts[fi].clone().into_val(e),
+                            self.accts[ti].clone().into_val(e),
+                            a.into_val(e),
+                        ],
+                        required: vec![self.accts[si].clone()],
+                        amount_arg: Some(3),
+                    },
+                    auth,
+                    Kind::TransferFrom,
+                    a,
+                );
+                r.from = Some(fi);
+                r.to = Some(ti);
+                r.spender = Some(si);
+                Step::Call(r)
+            }
+            Op::Approve { owner, spender, amt, live, auth } => {
+                let oi = self.acct_idx(*owner);
+                let si = self.acct_idx(*spender);
+                let a = self.resolve_amt(amt, d, oi, Some(si));
+                let l = self.resolve_live(live);
+                hist.expiries.push(l);
+                if !hist.pairs.contains(&(oi, si)) {
+                    hist.pairs.push((oi, si));
+                }
+                let mut r = blank(
+                    Call {
+                        func: "approve",
+                        args: vec![
+                            self.accts[oi].clone().into_val(e),
+                            self.accts[si].clone().into_val(e),
+                            a.into_val(e),
+                            l.into_val(e),
+                        ],
+                        required: vec![self.accts[oi].clone()],
+                        amount_arg: Some(2),
+                    },
+                    auth,
+                    Kind::Approve,
+                    a,
+                );
+                r.from = Some(oi);
+                r.spender = Some(si);
+                r.live = l;
+                Step::Call(r)
+            }
+            Op::Burn { from, amt, auth } => {
+                if !f.has_burn() {
+                    return Step::Skipped;
+                }
+                let fi = self.acct_idx(*from);
+                let a = self.resolve_amt(amt, d, fi, None);
+                let mut r = blank(
+                    Call {
+                        func: "burn",
+                        args: vec![self.accts[fi].clone().into_val(e), a.into_val(e)],
+                        required: vec![self.accts[fi].clone()],
+                        amount_arg: Some(1),
+                    },
+                    auth,
+                    Kind::Burn,
+                    a,
+                );
+                r.from = Some(fi);
+                Step::Call(r)
+            }
+            Op::BurnFrom { spender, from, amt, auth, live_pair } => {
+                if !f.has_burn() {
+                    return Step::Skipped;
+                }
+                let (fi, si) = self.spend_pair(d, hist, *from, *spender, *live_pair);
+                let a = self.resolve_amt(amt, d, fi, Some(si));
+                let mut r = blank(
+                    Call {
+                        func: "burn_from",
+                        args: vec![self.accts[si].clone().into_val(e), self.accts[fi].clone().into_val(e), a.into_val(e)],
+                        required: vec![self.accts[si].clone()],
+                        amount_arg: Some(2),
+                    },
+                    auth,
+                    Kind::BurnFrom,
+                    a,
+                );
+                r.from = Some(fi);
+                r.spender = Some(si);
+                Step::Call(r)
+            }
+            Op::ListSet { who, on, auth } => {
+                if !f.has_list() {
+                    return Step::Skipped;
+                }
+                let wi = self.acct_idx(*who);
+                let mut r = blank(self.list_call(wi, *on), auth, Kind::List, 0);
+                r.list = Some((wi, *on));
+                Step::Call(r)
+            }
+            Op::Pause { on, by_owner, auth } => {
+                if !f.has_pause() {
+                    return Step::Skipped;
+                }
+                let caller = if *by_owner { self.admin.clone() } else { self.accts[self.accts.len() - 1].clone() };
+                let by_owner = caller == self.admin;
+                let mut r = blank(
+                    Call {
+                        func: if *on { "pause" } else { "unpause" },
+                        args: vec![caller.clone().into_val(e)],
+                        required: vec![caller],
+                        amount_arg: None,
+                    },
+                    auth,
+                    Kind::Pause,
+                    0,
+                );
+                r.pause = Some((*on, by_owner));
+                Step::Call(r)
+            }
+        }
+    }
+
+    /// (owner, spender) for an allowance-based op: a pair with a live allowance when asked for and available
+    pub fn spend_pair(&self, d: &Dump, hist: &Hist, from: u16, spender: u16, live_pair: Option<u16>) -> (usize, usize) {
+        if let Some(sel) = live_pair {
+            // a third of the time: any pair that was ever approved (possibly expired or spent by now)
+            if sel % 3 == 0 && !hist.pairs.is_empty() {
+                return hist.pairs[pick(sel, hist.pairs.len())];
+            }
+            let n = self.accts.len();
+            let live: Vec<(usize, usize)> =
+                (0..n).flat_map(|o| (0..n).map(move |s| (o, s))).filter(|(o, s)| d.allow[*o][*s] > 0).collect();
+            if !live.is_empty() {
+                return live[pick(sel, live.len())];
+            }
+        }
+        (self.acct_idx(from), self.acct_idx(spender))
+    }
+
+    /// allow/disallow resp. block/unblock call for holder index `wi`
+    pub fn list_call(&self, wi: usize, on: bool) -> Call {
+        let e = &self.e;
+        let func = match (self.flavor.is_allow(), on) {
+            (true, true) => "allow_user",
+            (true, false) => "disallow_user",
+            (false, true) => "block_user",
+            (false, false) => "unblock_user",
+        };
+        let hs = self.holders();
+        Call {
+            func,
+            args: vec![hs[wi].clone().into_val(e), self.manager.clone().into_val(e)],
+            required: vec![self.manager.clone()],
+            amount_arg: None,
+        }
+    }
+
+    /// set-up: bring list membership of all holders to `mask` with exact authorization
+    pub fn setup_lists(&self, mask: u16) -> Result<(), String> {
+        if !self.flavor.has_list() {
+            return Ok(());
+        }
+        let d = self.dump();
+        for i in 0..self.holders().len() {
+            let want = (mask >> i) & 1 == 1;
+            if want != d.listed[i] {
+                let c = self.list_call(i, want);
+                let (r, _) = exec(self, &c, &AuthMode::Exact);
+                r.map_err(|e| format!("list set-up {} failed: {e}", c.func))?;
+            }
+        }
+        Ok(())
+    }
 }
